@@ -30,7 +30,7 @@ Definition cell_eqb (a b : cell) : bool :=
   | CB x, CB y => Bool.eqb x y
   | CS x, CS y => String.eqb x y
   | CV x, CV y => pyval_eqb x y
-  | CO x, CO y => x =? y
+  | CO _, CO _ => true          (* the identity of a (deep-copied) object is not a value; sharing is compared separately: r_shared *)
   | _, _ => false
   end.
 Fixpoint cells_eqb (a b : list cell) : bool :=
@@ -86,7 +86,9 @@ Record rcase := mkRCase {
   r_vars : list (string * series cell); r_strict : bool;
   r_kind : rkind;
   r_new : span; r_fill : pyval; r_strictarg : option bool; r_fills : list (string * pyval);
-  r_exp : outcome rview }.
+  r_exp : outcome rview;
+  r_shared : bool;               (* observed: some object held in an object-dtype cell of the original is also held by the result *)
+  r_span_shared : bool           (* observed: result.span IS the original's span object *) }.
 
 Definition run_rcase (c : rcase) : outcome cst :=
   let st := mkC (r_old c) 0 (r_vars c) [] (r_strict c) in
@@ -141,7 +143,14 @@ Definition rfloat_model_ok (c : rcase) : bool :=
                     end) act
   | _ => true
   end.
-Definition check_rcase (c : rcase) : bool := rout_eqb (run_rcase c) (r_exp c) && rpd_model_ok c && rfloat_model_ok c.
+Definition obj_ids_of (vars : list (string * series cell)) : list Z :=
+  flat_map (fun kv => flat_map (fun c => match c with CO id => [id] | _ => [] end) (s_data (snd kv))) vars.
+Definition shares_objects (old new : list (string * series cell)) : bool :=
+  existsb (fun id => existsb (Z.eqb id) (obj_ids_of old)) (obj_ids_of new).
+Definition check_rcase (c : rcase) : bool :=
+  rout_eqb (run_rcase c) (r_exp c) && rpd_model_ok c && rfloat_model_ok c
+  && Bool.eqb (match run_rcase c with Ret st' => shares_objects (r_vars c) (c_vars st') | Raise _ => false end) (r_shared c)
+  && Bool.eqb (match run_rcase c with Ret st' => c_span_id st' =? 0 | Raise _ => false end) (r_span_shared c).   (* the original's span object is 0 *)
 Fixpoint rbad_indices (i : nat) (l : list rcase) : list nat :=
   match l with [] => [] | x :: r => if check_rcase x then rbad_indices (S i) r else i :: rbad_indices (S i) r end.
 
